@@ -354,7 +354,13 @@ func importNewRef(entry sortref.RefRevIdx, refStr string, opts *FlattenOpts) err
 
 	// now rewrite those refs with rebase
 	for key, ref := range partialAnalyzer.references.allRefs {
-		if err := replace.UpdateRef(sch, key, spec.MustCreateRef(normalize.RebaseRef(entry.Ref.String(), ref.String()))); err != nil {
+		rebased, erb := spec.NewRef(normalize.RebaseRef(entry.Ref.String(), ref.String()))
+		if erb != nil {
+			// the rebased location is not a valid $ref (e.g. a file name with a '%')
+			return ErrRewriteRef(key, entry.Ref.String(), erb)
+		}
+
+		if err := replace.UpdateRef(sch, key, rebased); err != nil {
 			return ErrRewriteRef(key, entry.Ref.String(), err)
 		}
 	}
